@@ -1083,7 +1083,7 @@ func main() {
 		replay(r, p)
 	}
 	workers := runtime.NumCPU()
-	nPairs := r.Pick(600, 40000)
+	nPairs := r.Pick(300, 24000)
 	nFlip := r.Pick(20, 500)
 	nLaw := r.Pick(300, 8000)
 	nScalar := r.Pick(2000, 100000)
